@@ -24,12 +24,13 @@ use vdesign::{Analyzed, PortSpec, StimStep, Stimulus, Trace, config_label};
 use veryl_analyzer::ir as air;
 use veryl_simulator::Config;
 use veryl_simulator::backend::BackendRegistry;
-use veryl_simulator::ir::{Context, Conv, ProtoModule, ProtoStatementBlock, build_ir};
+use veryl_simulator::ir::{Context, Conv, Ir, ProtoModule, ProtoStatementBlock, build_ir};
 use veryl_simulator::testbench::{TestResult, run_native_testbench};
 
 pub const RESULT_MARK: &str = "@@C03 RESULT ";
 pub const CLIF_BEGIN: &str = "@@C03 CLIF-BEGIN ";
 pub const CLIF_END: &str = "@@C03 CLIF-END";
+pub const DONE_MARK: &str = "@@C03 DONE";
 
 pub fn stim_json(stim: &Stimulus) -> Value {
     json!({
@@ -154,19 +155,9 @@ fn proto_of(a: &Analyzed, top: &str, config: &Config) -> Result<ProtoModule, Str
     r.map_err(|e| format!("conv: {e}"))
 }
 
-/// Structural summary of the IR after all IR-level passes (built without a
-/// code generator, so the statements stay visible).
-fn ir_summary(a: &Analyzed, top: &str, four_state: bool) -> Value {
-    let config = Config {
-        use_4state: four_state,
-        ..Default::default()
-    };
-    let r = std::panic::catch_unwind(std::panic::AssertUnwindSafe(|| proto_of(a, top, &config)));
-    let p = match r {
-        Ok(Ok(p)) => p,
-        Ok(Err(e)) => return json!({"err": e}),
-        Err(e) => return json!({"err": format!("panic: {}", panic_text(e))}),
-    };
+/// Structural summary of the IR after all IR-level passes (taken from a
+/// build without a code generator, so the statements stay visible).
+fn proto_summary(p: &ProtoModule, four_state: bool) -> Value {
     let mut text = String::new();
     let mut top_stmts = 0usize;
     for b in &p.comb_statements.0 {
@@ -219,6 +210,32 @@ fn ir_summary(a: &Analyzed, top: &str, four_state: bool) -> Value {
     })
 }
 
+fn ir_summary(a: &Analyzed, top: &str, four_state: bool) -> Value {
+    let config = Config {
+        use_4state: four_state,
+        ..Default::default()
+    };
+    let r = std::panic::catch_unwind(std::panic::AssertUnwindSafe(|| proto_of(a, top, &config)));
+    match r {
+        Ok(Ok(p)) => proto_summary(&p, four_state),
+        Ok(Err(e)) => json!({"err": e}),
+        Err(e) => json!({"err": format!("panic: {}", panic_text(e))}),
+    }
+}
+
+/// `build_ir` step by step (`Conv::conv` → `instantiate` → `Ir::from_module`),
+/// keeping the summary of the `ProtoModule` in between, then the run.
+fn run_engine(a: &Analyzed, top: &str, cfg: &Config, stim: &Stimulus, want_summary: bool) -> Result<(Trace, Option<Value>), String> {
+    let m = find_module(&a.ir, top).ok_or("top module not found")?;
+    let proto = proto_of(a, top, cfg).map_err(|e| e.replacen("conv: ", "build_ir: ", 1))?;
+    let sum = if want_summary { Some(proto_summary(&proto, cfg.use_4state)) } else { None };
+    let module = proto.instantiate();
+    let ir = Ir::from_module(module, cfg, m.token);
+    let mut sim = veryl_simulator::Simulator::new(ir, None);
+    let t = vdesign::sim::run_on(&mut sim, cfg, stim)?;
+    Ok((t, sum))
+}
+
 /// Separate build with `dump_cranelift`: the code generator prints the IR of
 /// every chunk to stdout; the parent turns it into an opcode histogram.
 fn clif_dump(a: &Analyzed, top: &str, four_state: bool, key: &str) {
@@ -245,7 +262,10 @@ fn run_all(case: &Value) -> Value {
     let top = case["top"].as_str().unwrap_or("Top");
     let stim = stim_from(&case["stimulus"]);
     let engines: Vec<String> = case["engines"].as_array().map(|a| a.iter().filter_map(|x| x.as_str().map(|s| s.to_string())).collect()).unwrap_or_default();
-    let want_summary = case["summary"].as_bool().unwrap_or(false);
+    // "both" | "ir" | "clif" | "none"
+    let mode = case["summary"].as_str().unwrap_or("none").to_string();
+    let want_summary = mode == "both" || mode == "ir";
+    let want_clif = mode == "both" || mode == "clif";
     let tb = case["tb"].as_str().map(|s| s.to_string());
 
     let a = match Analyzed::new(text) {
@@ -254,14 +274,26 @@ fn run_all(case: &Value) -> Value {
     };
     let mut runs = serde_json::Map::new();
     let mut tbs = serde_json::Map::new();
+    let mut sum = serde_json::Map::new();
     for label in &engines {
         let Some(cfg) = config_of(label) else {
             runs.insert(label.clone(), json!({"ok": false, "err": "unknown engine label"}));
             continue;
         };
-        let r = std::panic::catch_unwind(std::panic::AssertUnwindSafe(|| a.run(top, &cfg, &stim)));
+        // the plain interpreter builds double as the source of the IR summary
+        let sum_key = match label.as_str() {
+            "interp" => Some("ir2"),
+            "interp+4st" => Some("ir4"),
+            _ => None,
+        };
+        let r = std::panic::catch_unwind(std::panic::AssertUnwindSafe(|| run_engine(&a, top, &cfg, &stim, want_summary && sum_key.is_some())));
         let v = match r {
-            Ok(Ok(t)) => trace_json(&t),
+            Ok(Ok((t, s))) => {
+                if let (Some(k), Some(s)) = (sum_key, s) {
+                    sum.insert(k.to_string(), s);
+                }
+                trace_json(&t)
+            }
             Ok(Err(e)) => json!({"ok": false, "err": e}),
             Err(e) => {
                 let _ = veryl_simulator::output_buffer::take();
@@ -292,26 +324,25 @@ fn run_all(case: &Value) -> Value {
             tbs.insert(label.clone(), v);
         }
     }
-    let mut sum = serde_json::Map::new();
-    if want_summary {
+    {
         let any2 = engines.iter().any(|l| !l.contains("4st"));
         let any4 = engines.iter().any(|l| l.contains("4st"));
         let jit2 = engines.iter().any(|l| !l.contains("4st") && !l.starts_with("interp"));
         let jit4 = engines.iter().any(|l| l.contains("4st") && !l.starts_with("interp"));
-        if any2 {
+        if want_summary && any2 && !sum.contains_key("ir2") {
             sum.insert("ir2".into(), ir_summary(&a, top, false));
         }
-        if any4 {
+        if want_summary && any4 && !sum.contains_key("ir4") {
             sum.insert("ir4".into(), ir_summary(&a, top, true));
         }
-        if jit2 {
+        if want_clif && jit2 {
             clif_dump(&a, top, false, "clif2");
         }
-        if jit4 {
+        if want_clif && jit4 {
             clif_dump(&a, top, true, "clif4");
         }
         if let Some(tb) = &tb {
-            if any2 {
+            if want_summary && any2 {
                 sum.insert("tb_ir2".into(), ir_summary(&a, tb, false));
             }
         }
@@ -351,4 +382,33 @@ pub fn main(args: &[String]) -> i32 {
             3
         }
     }
+}
+
+/// Server mode: one case file path per line on stdin; for each, the same
+/// output as `main`, followed by a `@@C03 DONE` line.  Every case runs on a
+/// fresh thread (the analyzer's tables are thread-local).
+pub fn serve() -> i32 {
+    use std::io::{BufRead, Write};
+    let stdin = std::io::stdin();
+    for line in stdin.lock().lines() {
+        let Ok(line) = line else { break };
+        let path = line.trim().to_string();
+        if path.is_empty() {
+            continue;
+        }
+        let case: Option<Value> = std::fs::read_to_string(&path).ok().and_then(|t| serde_json::from_str(&t).ok());
+        match case {
+            None => println!("@@C03 WORKER-PANIC cannot read case file"),
+            Some(case) => {
+                let h = std::thread::Builder::new().stack_size(64 << 20).spawn(move || run_all(&case)).expect("spawn");
+                match h.join() {
+                    Ok(v) => println!("{RESULT_MARK}{v}"),
+                    Err(e) => println!("@@C03 WORKER-PANIC {}", panic_text(e).replace('\n', " ")),
+                }
+            }
+        }
+        println!("{DONE_MARK}");
+        let _ = std::io::stdout().flush();
+    }
+    0
 }
